@@ -22,6 +22,7 @@ type Clause struct {
 	HeadOnly bool   // loop exit clause: only the exit out of the loop header (condition false)
 	Mode     string // "int": discharge in the integer encoding first
 	Slow     bool   // needs several seconds: gets six times the per-obligation budget
+	NoAssume bool   // `checkonly:` point assertion: proved, but not assumed afterwards (the other queries of the function stay as they were)
 }
 
 type LoopSpec struct {
@@ -166,6 +167,10 @@ func (sp *Specs) parseFile(path string, data []byte, pkgPath string) error {
 		if strings.HasPrefix(src, "thorough ") {
 			c.Thor = true
 			src = strings.TrimSpace(strings.TrimPrefix(src, "thorough "))
+		}
+		if strings.HasPrefix(src, "checkonly: ") {
+			c.NoAssume = true
+			src = strings.TrimSpace(strings.TrimPrefix(src, "checkonly: "))
 		}
 		if strings.HasPrefix(src, "slow: ") {
 			c.Slow = true
